@@ -27,6 +27,8 @@ type Deck struct {
 	// RelsInfraFirst: /_rels/.rels lists the officeDocument relationship last and
 	// presentation.xml.rels lists slideMaster / theme / props before the slides
 	RelsInfraFirst bool
+	// Spelling of presentation.xml, its relationships and /_rels/.rels
+	Sp Spelling
 }
 
 const (
@@ -61,12 +63,18 @@ func (d *Deck) Members() []Member {
 	decl := sortedBy(d.Slides, func(s PSlide) int { return s.DeclPos })
 	rel := sortedBy(d.Slides, func(s PSlide) int { return s.RelPos })
 	var pr strings.Builder
-	pr.WriteString(xmlDecl)
-	pr.WriteString(`<p:presentation` + pNS + `><p:sldMasterIdLst><p:sldMasterId id="2147483648" r:id="rIdM"/></p:sldMasterIdLst><p:sldIdLst>`)
-	for _, s := range decl {
-		fmt.Fprintf(&pr, `<p:sldId id="%d" r:id="%s"/>`, s.SldID, esc(s.RID))
+	sp := d.Sp
+	pr.WriteString(`<p:presentation xmlns:a="` + nsA + `" xmlns:` + sp.rp() + `="` + nsRel + `" xmlns:p="` + nsP + `"` + sp.mcAttrs() +
+		`><p:sldMasterIdLst><p:sldMasterId id="2147483648" ` + sp.rp() + `:id="rIdM"/></p:sldMasterIdLst><p:sldIdLst>`)
+	for i, s := range decl {
+		as := []attr{{"id", fmt.Sprint(s.SldID)}, {sp.rp() + ":id", s.RID}}
+		if sp.Foreign {
+			as = append(as, attr{"vx:id", fmt.Sprintf("x%d", 900+i)})
+		}
+		pr.WriteString(sp.sep() + sp.el("p:sldId", as))
 	}
-	pr.WriteString(`</p:sldIdLst><p:sldSz cx="9144000" cy="6858000"/><p:notesSz cx="6858000" cy="9144000"/></p:presentation>`)
+	pr.WriteString(sp.sep() + `</p:sldIdLst><p:sldSz cx="9144000" cy="6858000"/><p:notesSz cx="6858000" cy="9144000"/></p:presentation>`)
+	prXML := sp.doc(xmlDecl, pr.String())
 
 	var rels []Rel
 	for _, s := range rel {
@@ -105,9 +113,9 @@ func (d *Deck) Members() []Member {
 	}
 	infra := []Member{
 		mem("[Content_Types].xml", contentTypesXML(ov)),
-		mem("_rels/.rels", relsXML(root)),
-		mem("ppt/presentation.xml", pr.String()),
-		mem("ppt/_rels/presentation.xml.rels", relsXML(rels)),
+		mem("_rels/.rels", relsXMLSp(root, sp)),
+		mem("ppt/presentation.xml", prXML),
+		mem("ppt/_rels/presentation.xml.rels", relsXMLSp(rels, sp)),
 		mem("ppt/slideMasters/slideMaster1.xml", master),
 		mem("ppt/slideMasters/_rels/slideMaster1.xml.rels", relsXML([]Rel{{"rId1", relBase + "slideLayout", "../slideLayouts/slideLayout1.xml"}, {"rId2", relBase + "theme", "../theme/theme1.xml"}})),
 		mem("ppt/slideLayouts/slideLayout1.xml", layout),
